@@ -169,6 +169,21 @@ theorem after_takeover_non_ipv4_old_address (st : State) (h : Nat) (nid : NodeId
   rw [hm]
   exact non_ipv4_node_falls_back _ (by intro p; exact hn p)
 
+/-- an Update URR changes what it carries and nothing else: with the method alone the recorded MNOP stays, with the
+    information alone the recorded method stays, with neither nothing changes — so later reports keep the IE selection the
+    SMF last asked for -/
+theorem update_keeps_absent (info : URRInfo) (ie : RuleIE) :
+    (ie.meth = none → (info.applyUpdate ie).durat = info.durat ∧ (info.applyUpdate ie).volum = info.volum) ∧
+    (ie.mnop = none → (info.applyUpdate ie).mnop = info.mnop) ∧
+    (∀ d v, ie.meth = some (d, v) → (info.applyUpdate ie).durat = d ∧ (info.applyUpdate ie).volum = v) ∧
+    (∀ m, ie.mnop = some m → (info.applyUpdate ie).mnop = m) := by
+  unfold URRInfo.applyUpdate
+  refine ⟨?_, ?_, ?_, ?_⟩
+  · intro h; rw [h]; cases ie.mnop <;> exact ⟨rfl, rfl⟩
+  · intro h; rw [h]; cases ie.meth <;> first | rfl | trivial
+  · intro d v h; rw [h]; cases ie.mnop <;> exact ⟨rfl, rfl⟩
+  · intro m h; rw [h]
+
 /-- one IE, any carrier (`extra` = TERMR / IMMER / nothing; with or without dropping removed URRs): id, trigger word and the
     measured values are those of THE report it was made from -/
 theorem ie_from (s : Sess) (r : Report) (x : BitVec 32) (b : Bool) (ie : UsarIE) (h : (emitOne s r x b).2 = some ie) :
